@@ -23,5 +23,6 @@ CONSTANTS
   MaxE = 2
   StrictOrder = FALSE
   LowerBound = FALSE
+  CacheCopies = TRUE
 INVARIANT AcceptIffValid
 CHECK_DEADLOCK FALSE
